@@ -74,6 +74,11 @@ pub struct RxPolicy {
     pub short_read: u32,
     /// serial port: percent chance of an `Interrupted` error before a read
     pub interrupted: u32,
+    /// USART / serial port: per-mille chance that a read fails hard (framing / parity /
+    /// device error) without consuming anything. Only injected where every correct
+    /// receiver stays aligned with the link framing: between frames, or inside a frame
+    /// whose remaining body contains no zero byte (the rest is then skipped as noise).
+    pub hard_err_pm: u32,
 }
 
 impl RxPolicy {
@@ -85,6 +90,7 @@ impl RxPolicy {
             trickle: false,
             short_read: 0,
             interrupted: 0,
+            hard_err_pm: 0,
         }
     }
 }
@@ -150,6 +156,8 @@ pub struct Wire {
     pub drain: bool,
     consec_wb: u32,
     consec_intr: u32,
+    consec_hard: u32,
+    pub hard_errors: u64,
     starve: u32,
     frames_this_poll: u32,
     /// reads answered "not yet" inside a link frame (reach probe)
@@ -185,6 +193,8 @@ impl Wire {
             drain: false,
             consec_wb: 0,
             consec_intr: 0,
+            consec_hard: 0,
+            hard_errors: 0,
             starve: 0,
             frames_this_poll: 0,
             wb_inside_seen: 0,
@@ -223,6 +233,26 @@ impl Wire {
     pub fn begin_poll(&mut self) {
         self.starve = 0;
         self.frames_this_poll = 0;
+    }
+
+    /// true if a hard read error may be injected at the current position (see RxPolicy)
+    fn hard_error_allowed(&self) -> bool {
+        if !self.kind.is_bytes() || self.cursor >= self.bytes.len() {
+            return false;
+        }
+        let rest = match self.parse {
+            Parse::Idle => return true,
+            Parse::Len => {
+                let l = self.bytes[self.cursor] as usize;
+                if l == 0 {
+                    return false;
+                }
+                (self.cursor, self.cursor + 1 + l)
+            }
+            Parse::Body(n) => (self.cursor, self.cursor + n as usize),
+        };
+        let end = rest.1.min(self.bytes.len());
+        self.bytes[rest.0..end].iter().all(|b| *b != 0)
     }
 
     fn advance_parse(&mut self, b: u8) {
@@ -355,6 +385,27 @@ impl Dev {
         }
     }
 
+    /// Decides whether this read fails hard (nothing is consumed).
+    fn hard_read_error(&self) -> bool {
+        let (pm, drain, consec, allowed) = {
+            let w = self.rx.borrow();
+            (w.policy.hard_err_pm, w.drain, w.consec_hard, w.in_flight() > 0 && w.hard_error_allowed())
+        };
+        if pm == 0 || drain || !allowed || consec >= 2 {
+            self.rx.borrow_mut().consec_hard = 0;
+            return false;
+        }
+        if self.sim.draw(1000) >= 1000 - pm {
+            let mut w = self.rx.borrow_mut();
+            w.consec_hard += 1;
+            w.hard_errors += 1;
+            true
+        } else {
+            self.rx.borrow_mut().consec_hard = 0;
+            false
+        }
+    }
+
     fn take_byte(&self) -> u8 {
         let mut w = self.rx.borrow_mut();
         let b = w.bytes[w.cursor];
@@ -452,6 +503,17 @@ impl embedded_hal::serial::Read<u8> for Dev {
 
     fn read(&mut self) -> nb::Result<u8, ()> {
         let _g = SimDomain::enter();
+        if self.hard_read_error() {
+            let at_b = self.rx.borrow().at_boundary();
+            self.sim.event(EV_RX, 9, at_b as u64, || {
+                format!(
+                    "{}.usart.read -> Err(device error) ({})",
+                    self.name,
+                    if at_b { "between frames" } else { "inside frame" }
+                )
+            });
+            return Err(nb::Error::Other(()));
+        }
         match self.arrival() {
             Arrival::NotYet => {
                 let (at_b, inflight) = {
@@ -644,6 +706,10 @@ impl io::Read for Dev {
             return Err(io::Error::new(io::ErrorKind::Interrupted, "sim: EINTR"));
         }
         self.rx.borrow_mut().consec_intr = 0;
+        if self.hard_read_error() {
+            self.sim.event(EV_RX, 10, 0, || format!("{}.serial.read({}) -> Err(device error)", self.name, buf.len()));
+            return Err(io::Error::new(io::ErrorKind::Other, "sim: device error"));
+        }
         // inside a frame the data is there (whole frames are supplied): no timeout
         let at_b = self.rx.borrow().at_boundary();
         let arrival = if at_b || avail == 0 {
